@@ -9,16 +9,23 @@ every real request:
 
 * `WFq ir`          structural well-formedness the engine relies on (an execution-order walk of every
                     component: `checkVisited` discipline, recorded-before-use for every vertex a tag /
-                    fold / output refers to, imports covering outer tags, fresh `folded_values` keys,
-                    distinct output names, variables declared);
+                    fold / output refers to, imports covering outer tags, no tag imported twice by one
+                    fold, fresh `folded_values` keys, distinct output names, variables declared);
 * `ArgsOK ir args`  (in `Model/Args.lean`) the engine's own argument validation accepts;
 * `SchemaOK S ir`   the IR is typed by the schema `S` (vertex types, properties with the recorded type,
                     edges with exactly the declared parameters, coercions to strict subtypes of
                     interfaces, operand types admissible per `operand_types_valid`, variable types as
                     inferred by `infer_variable_type`);
 * `Conforms S D`    the dataset is typed by the schema;
-* `NoKnownTrigger D ir args`  none of the four known panic triggers F-4, F-5, F-9, F-10 is present
+* `NoKnownTrigger D ir args`  neither of the two known panic triggers F-4, F-5 is present
                     (needs `D` only for its regex table: "does this pattern compile").
+
+History: the guard used to have four clauses.  F-9 (`unreachable!` in `apply_fold_specific_filter` on a
+fold inside a missing `@optional` scope) and F-10 (the frontend listed a tag twice in a fold's
+`imported_tags`, the second `imported_tags.remove(..).unwrap()` failed) were fixed in the engine: the
+F-9 site no longer exists in the model, and "no tag imported twice by one fold" is now a structural
+property the frontend guarantees, hence part of `WFq` (`tagKeysDistinct` in `stageWf`); under `WFq` the
+`imported_tags.remove(..).unwrap()` site is unreachable.
 
 No Mathlib; compiled into the native driver.
 -/
@@ -138,6 +145,12 @@ def filterWf (vars : List (Name × QTy)) (comp : Component) (chain : List FieldR
         | none => false)
     | .bin _, some (.tag r) => tagWf comp chain recorded foldsDone cur r)
 
+/-- no tag is imported twice (what the fixed `reference_tag` of the frontend guarantees for a fold's
+`imported_tags`; the engine's `imported_tags.remove(..).unwrap()` per import relies on it) -/
+def tagKeysDistinct : List FieldRef → Bool
+  | [] => true
+  | r :: rest => !(rest.any fun r' => r'.key == r.key) && tagKeysDistinct rest
+
 def importWf (comp : Component) (chain : List FieldRef) (st : WState) : FieldRef → Bool
   | .ctx vid f _ =>
     (comp.vertex? vid).isSome && st.recorded.contains vid &&
@@ -163,7 +176,7 @@ def stageWf (vars : List (Name × QTy)) (comp : Component) (chain : List FieldRe
     st.visited.contains f.fromVid && !st.visited.contains f.toVid && !(f.fromVid == f.toVid) &&
     st.recorded.contains f.fromVid && (comp.vertex? f.fromVid).isSome &&
     !(st.foldsDone.map (·.eid)).contains f.eid &&
-    f.imports.all (importWf comp chain st) &&
+    f.imports.all (importWf comp chain st) && tagKeysDistinct f.imports &&
     f.post.all (filterWf vars comp chain st.recorded (st.foldsDone.map (·.eid) ++ [f.eid])
       f.fromVid true) &&
     (keysOfFold f).all (fun k => !((st.foldsDone.flatMap keysOfFold).any (keyEq k)))
@@ -355,7 +368,7 @@ def Conforms (S : SchemaView) (D : Data) : Bool :=
   D.vertices.all (vertexConforms S D) && D.adj.all (adjConforms S D) &&
   D.starts.all (startConforms S D)
 
-/-! ### the known panic triggers (DESIGN.md §6: F-4, F-5, F-9, F-10) -/
+/-! ### the known panic triggers (DESIGN.md §6: F-4, F-5; F-9 and F-10 are fixed in the engine) -/
 
 def isOrderingOp : Filter.BinOp → Bool
   | .lessThan | .lessThanOrEqual | .greaterThan | .greaterThanOrEqual => true
@@ -378,20 +391,12 @@ def vertexFilterNoTrigger (D : Data) (args : List (Name × Value)) (f : IRFilter
   | .loc _ ty => filterNoTrigger D args ty f
   | .count => true
 
-def tagKeysDistinct : List FieldRef → Bool
-  | [] => true
-  | r :: rest => !(rest.any fun r' => r'.key == r.key) && tagKeysDistinct rest
-
 def ntLocal (D : Data) (args : List (Name × Value)) (_chain : List FieldRef) (comp : Component) : Bool :=
   comp.vertices.all (fun v => v.filters.all (vertexFilterNoTrigger D args)) &&
-  comp.folds.all (fun f =>
-    -- F-10: no tag imported twice
-    tagKeysDistinct f.imports &&
-    -- F-9: no post-filter on a fold that may not exist
-    (f.post.isEmpty || !(optionalVertices comp.edges).contains f.fromVid) &&
-    f.post.all (filterNoTrigger D args ⟨"Int", [false]⟩))
+  comp.folds.all (fun f => f.post.all (filterNoTrigger D args ⟨"Int", [false]⟩))
 
-/-- None of the known panic triggers is present. -/
+/-- None of the known panic triggers (F-4: a regex variable whose pattern does not compile; F-5: an
+ordering operator on a list-typed left operand) is present. -/
 def NoKnownTrigger (D : Data) (ir : IRQuery) (args : List (Name × Value)) : Bool :=
   allComps (ntLocal D args) [] ir.rootComponent
 
@@ -431,12 +436,10 @@ def checkedAdapter (S : SchemaView) (D : Data) : Adapter where
 def Env.checked (S : SchemaView) (D : Data) (args : List (Name × Value)) : Env :=
   { Env.ofData D args with adapter := checkedAdapter S D }
 
-/-- The panic sites of the four known defects. -/
+/-- The panic sites of the two known defects (F-4, F-5). -/
 def knownSite (s : String) : Bool :=
   s == "regex argument was not a valid regex" ||
-  s == "filter operator: unreachable!" ||
-  s == "while applying fold-specific filter, the @fold turned out to not exist: unreachable!" ||
-  s == "imported_tags.remove(..).unwrap()"
+  s == "filter operator: unreachable!"
 
 def isContractSite (s : String) : Bool := "contract:".isPrefixOf s
 
